@@ -190,7 +190,13 @@ pub fn check(case: &Case, w: usize) -> CheckResult {
                     Some((fc, ft, code)) if case.commands[pick(fc, case.commands.len())] == *c && cfg.targets[pick(ft, cfg.targets.len())].path == t.path => code,
                     _ => 0,
                 };
-                beh.insert((c.clone(), t.path.clone()), Behavior { sleep_ms: 3, exit, ..Default::default() });
+                // with a failing executable: it fails at once, while the others are still running
+                let sleep_ms = match case.failing {
+                    Some(_) if exit != 0 => 0,
+                    Some(_) => 200,
+                    None => 3,
+                };
+                beh.insert((c.clone(), t.path.clone()), Behavior { sleep_ms, exit, ..Default::default() });
             }
         }
     }
